@@ -303,6 +303,39 @@ def spec_line(real, case, obs, rank, mw=None, avail=None):
     return " ".join(parts)
 
 
+def case_record(ctx, c, argv, rc, err_, kind, **extra):
+    """what an offender / disagreement records of a case: enough to re-run it (`./check.py C18 --replay FILE`)"""
+    rel = lambda w: w.replace(ctx.scratch, "@SCRATCH@") if isinstance(w, str) else w
+    d = {"pers": c.pers, "env": c.env, "argv": argv, "exit": rc, "stderr": (err_ or b"").decode("latin1")[-200:],
+         "kind": kind, "opts": [list(o) for o in c.opts], "style": c.style, "dashdash": c.dashdash,
+         "struct_ok": c.struct_ok, "oracle": c.oracle, "operands": [rel(w) for w in c.operands],
+         "drop_last": bool(getattr(c, "_drop_last", False))}
+    d.update(extra)
+    return d
+
+
+def load_replay(ctx):
+    """(Case, kind) named by --replay FILE, or (None, None)"""
+    import json
+    if not getattr(ctx, "replay", None):
+        return None, None
+    rp = json.load(open(ctx.replay))
+    k = rp.get("case") or {}
+    if rp.get("kind") != "input" or "opts" not in k:
+        ctx.log("replay file names no re-runnable input: running the whole check instead")
+        return None, None
+    c = Case(k["pers"], [tuple(o) for o in k["opts"]], k.get("env", {}),
+             [w.replace("@SCRATCH@", ctx.scratch) for w in k.get("operands", [])], k.get("style"),
+             dashdash=k.get("dashdash", False), oracle=k.get("oracle", True), struct_ok=k.get("struct_ok", True),
+             kind=k.get("kind", "q"))
+    if k.get("drop_last"):
+        c._drop_last = True
+    c.group = "replay"
+    ctx.log("replay of %s: %s env %s argv %s (signature %s)" % (os.path.basename(ctx.replay), c.pers, c.env, c.argv(),
+                                                             rp.get("signature")))
+    return c, k.get("kind", "q")
+
+
 def rank_from_gen():
     src = open(os.path.join(VERIF, "lean", "PdshVerif", "Gen", "Opt.lean")).read()
     return re.findall(r'"([^"]*)"', re.search(r"RCMD_RANK : List String := \[(.*)\]", src).group(1))
@@ -349,6 +382,7 @@ def run(ctx):
         cov["variant_detected"] = dict(zip(["d4", "d5", "atoi", "dopt"], [b == "1" for b in bits]))
         ctx.log("code under test contains repairs:", cov["variant_detected"], "rcmd modules:", real.avail)
         quick = ctx.quick()
+        rp_case, rp_kind = load_replay(ctx)
         cases = []
         # (A) single-setting sweeps
         for letter in "ftu":
@@ -396,6 +430,16 @@ def run(ctx):
             cases.append(c)
         for c in load_corpus(real.files):
             cases.append(c)
+        if rp_case is not None:         # --replay: only the recorded case
+            cases = [rp_case] if rp_kind == "q" else []
+            order_groups = []
+            if rp_kind == "orders":     # all orders of the recorded options (after the fixed -w / -q)
+                grp = []
+                for perm in itertools.permutations(rp_case.opts[2:]):
+                    c = Case(rp_case.pers, rp_case.opts[:2] + list(perm), rp_case.env, rp_case.operands)
+                    c.group = "orders"
+                    grp.append(c)
+                cases, order_groups = grp, [grp]
         # oracle domain: every setting option at most once, nothing structurally odd
         for c in cases:
             letters = [l for l, _ in c.opts if l in "ftulRMe"]
@@ -437,7 +481,7 @@ def run(ctx):
             dist["pers"][c.pers] += 1
             if any(l in "ftulRMe" for l, _ in c.opts) or c.env:
                 distinct.add((c.pers, tuple(sorted(c.env.items())), tuple(a)))
-            case = {"pers": c.pers, "env": c.env, "argv": a, "exit": rc, "stderr": err_.decode("latin1")[-200:]}
+            case = case_record(ctx, c, a, rc, err_, "q")
             d = parse_dump(out) if rc == 0 else None
             if rc is None:
                 dist["hang"] += 1
@@ -491,8 +535,8 @@ def run(ctx):
             if len(outs) > 1:
                 c = grp[0]
                 ctx.offender("order-dependent", "the same options in another order give another result: env %s options %s: %s"
-                             % (c.env, c.opts, list(outs)[:2]), {"pers": c.pers, "env": c.env, "opts": c.opts,
-                                                                 "results": [str(o) for o in outs][:4]})
+                             % (c.env, c.opts, list(outs)[:2]),
+                             case_record(ctx, c, c.argv(), None, b"", "orders", results=[str(o) for o in outs][:4]))
         # (E) module selection (uid 1000, PDSH_MODULE_DIR = the conflicting test modules A and B)
         tm = os.path.join(repo, "tests", "test-modules")
         mk = subprocess.run(["make", "-C", tm, "a.la", "b.la"], stdout=subprocess.PIPE, stderr=subprocess.STDOUT)
@@ -515,6 +559,8 @@ def run(ctx):
                 c = Case("dsh", opts, env, ["true"], [rng.choice(["sep", "att"]) for _ in opts])
                 c.oracle = len([1 for l, _ in opts if l == "M"]) <= 1
                 mcases.append(c)
+            if rp_case is not None:
+                mcases = [rp_case] if rp_kind == "misc" else []
             margv = [c.argv() for c in mcases]
             with concurrent.futures.ThreadPoolExecutor(max_workers=8) as ex:
                 mres = list(ex.map(lambda ca: real.run("dsh", ["-L"] + ca[1], dict(ca[0].env, PDSH_MODULE_DIR=moddir), user=1000),
@@ -531,8 +577,7 @@ def run(ctx):
                 cov["evaluations"] += 1
                 dist["misc"] += 1
                 distinct.add(("misc", tuple(sorted(c.env.items())), tuple(a)))
-                case = {"pers": "dsh", "env": c.env, "argv": ["-L"] + a, "active": w, "exit": rc,
-                        "stderr": err_.decode("latin1")[-200:]}
+                case = case_record(ctx, c, ["-L"] + a, rc, err_, "misc", active=w)
                 if "mw=" + w not in m.split(" "):
                     ctx.disagreement("opt model vs pdsh -L (module selection)", "active module %s, model `%s`" % (w, m), case)
                 if c.oracle and sp != "ok":
@@ -559,6 +604,8 @@ def run(ctx):
                 rcases.append(Case("dsh", opts, {"FANOUT": t} if src == "e" else {}, ["/bin/true"], kind="run"))
         for extra in ([("u", "-1")], [("u", "7")], [("l", "u" * 300)], [("t", "5")], [("l", "someone")], [("u", "-4294967295")]):
             rcases.append(Case("dsh", [("R", "exec"), ("w", "h[0-2]")] + extra, {}, ["/bin/true"], kind="run"))
+        if rp_case is not None:
+            rcases = [rp_case] if rp_kind == "run" else []
         # the remote command leaves a trace, so that "refused before anything is contacted" is observable
         touch = "/usr/bin/touch" if os.path.exists("/usr/bin/touch") else "/bin/touch"
         for i, c in enumerate(rcases):
@@ -576,7 +623,7 @@ def run(ctx):
             cov["evaluations"] += 1
             dist["runs"] += 1
             distinct.add(("run", tuple(sorted(c.env.items())), tuple(a)))
-            case = {"pers": "dsh", "env": c.env, "argv": a, "exit": rc, "stderr": err_.decode("latin1")[-200:]}
+            case = case_record(ctx, c, a, rc, err_, "run")
             if rc is None:
                 dist["hang"] += 1
             want = "hang" if rc is None else "exit %d" % rc
